@@ -64,6 +64,11 @@ def parseBytes (bs : List Nat) : Except PErr (UExpr Rat) :=
   | none => .error .decodeError
   | some cs => parseChars cs
 
+/-- NAME tokens compared up to `inv_name_alternatives` (`%` is printed for the symbol `percent`) -/
+def canonTok : Tok → Tok
+  | .name s => .name (canonName s)
+  | t => t
+
 def opsC20 : Handler := fun st fields =>
   match fields with
   -- Unit(str): parsed expression, and str()/repr() of the result
@@ -101,7 +106,7 @@ def opsC20 : Handler := fun st fields =>
           | .ok _ => .error .unmodelled
           | .error c => .error c
       let lexed := match tokenize (rewrite (render a).toList) with
-        | .ok ts => if ts == renderTokens a then "1" else "0"
+        | .ok ts => if ts.map canonTok == (renderTokens a).map canonTok then "1" else "0"
         | .error _ => "0"
       some (st, s!"ok\t{resFlat (.ok (evalAst a))}\t{resFlat viaTokens}\t{lexed}")
     | _, _ => none
